@@ -185,7 +185,7 @@ def obligations(tier):
     # ---- C: DensityMatrixSimulator final state == ordered channel application ----------------------------------
     PREP = [('Xt0', lambda q, t: [cirq.X(q[0]) ** t]), ('bell', lambda q, t: [cirq.H(q[0]), cirq.CNOT(q[0], q[1])])] + ([('H0', lambda q, t: [cirq.H(q[0])]), ('HH', lambda q, t: [cirq.H(q[0]), cirq.H(q[1])])] if tier != 'quick' else [])
     PREP_DOC = {'H0': lambda t: [(D.H(1.0), [0])], 'Xt0': lambda t: [(D.X(t), [0])], 'bell': lambda t: [(D.H(1.0), [0]), (D.CX(1.0), [0, 1])], 'HH': lambda t: [(D.H(1.0), [0]), (D.H(1.0), [1])]}
-    MID = [('none', lambda q, u: [], lambda u: []), ('CNOT', lambda q, u: [cirq.CNOT(q[1], q[0])], lambda u: [(D.CX(1.0), [1, 0])])] + ([('CZt', lambda q, u: [cirq.CZ(q[0], q[1]) ** u], lambda u: [(D.CZ(u), [0, 1])])] if tier != 'quick' else [])
+    MID = [('none', lambda q, u: [], lambda u: []), ('CNOT', lambda q, u: [cirq.CNOT(q[1], q[0])], lambda u: [(D.CX(1.0), [1, 0])])]  # (a CZ**u entangler with symbolic u was tried in the thorough tier: 20 of 2800 paths of dm_simulate.phase_flip stayed undecided in the NRA stage, so it is not part of the claim)
     # second channel: the thorough tier uses 5 channels (the full menu incl. generalized_amplitude_damp as SECOND channel
     # ran three obligations past 100 CPU-minutes each without finishing: products of several sqrt atoms)
     CH2 = [m for m in MENU if m[0] in (('amplitude_damp', 'depolarize', 'reset') if tier == 'quick' else ('amplitude_damp', 'depolarize', 'reset', 'phase_damp', 'bit_flip'))]
